@@ -232,6 +232,21 @@ def zero_routes():
     return r
 
 
+def container_routes():
+    """Metadata holding a sequence / a NaN: what the identifier calls equal, == calls equal (for every class)."""
+    import pygaps
+    r = {}
+    r['list'] = lambda: mk_base(tags=['a', 'b'], blank=float('nan'))
+    r['tuple'] = lambda: mk_base(tags=('a', 'b'), blank=float('nan'))
+    r['numpy nan'] = lambda: mk_base(tags=['a', 'b'], blank=numpy.nan)
+    r['from_json(to_json)'] = lambda: pygaps.parsing.isotherm_from_json(mk_base(tags=('a', 'b'), blank=float('nan')).to_json())
+    r['point, list'] = lambda: mk_point(tags=['a', 'b'], blank=float('nan'))
+    r['point, tuple'] = lambda: mk_point(tags=('a', 'b'), blank=float('nan'))
+    r['model, list'] = lambda: mk_model(tags=['a', 'b'], blank=float('nan'))
+    r['model, tuple'] = lambda: mk_model(tags=('a', 'b'), blank=float('nan'))
+    return r
+
+
 def model_routes():
     import pygaps
     r = {}
@@ -317,7 +332,8 @@ def run(ctx):
     # ---- insensitivity
     groups = [('simple', simple_routes(), 'list[float]'), ('decimal', decimal_routes(), 'list[float]'),
               ('decimal extra column', decimal_extra_routes(), 'extra column float64'), ('zeros', zero_routes(), '+0.0'),
-              ('model with integer-valued content', model_int_routes(), 'float literals'), ('point', point_routes(), 'reference'), ('base', base_routes(), 'reference'),
+              ('model with integer-valued content', model_int_routes(), 'float literals'), ('container metadata', container_routes(), 'list'),
+              ('point', point_routes(), 'reference'), ('base', base_routes(), 'reference'),
               ('model', model_routes(), 'reference'), ('fitted model', fitted_routes(), 'list[float]')]
     ids_ref = {}
     for gname, routes, refname in groups:
@@ -339,6 +355,11 @@ def run(ctx):
                 ctx.violate(core.make_violation({'check': 'id-raises', 'template': gname, 'route': rname},
                                                 f'[{gname}] iso_id of an isotherm built by route {rname!r} {oid.brief()}', {'route': rname}, ref.iso_id, oid.brief()))
                 continue
+            if gname == 'container metadata':
+                # three classes in one group: each route is compared with the 'list' route of its own class
+                cls = rname.split(',')[0] if ',' in rname else 'base'
+                ref = routes[{'base': 'list', 'point': 'point, list', 'model': 'model, list'}[cls]]()
+                pool = [ref]
             same = oid.value == ref.iso_id
             eq = core.call(lambda: iso == ref)
             member = core.call(lambda: iso in pool)
@@ -350,17 +371,20 @@ def run(ctx):
     # ---- other processes / hash seeds
     code = CHILD % {'verif': core.VERIF}
     here = reference_ids()
-    for seed in ('0', '1', '12345', 'random'):
-        env = dict(os.environ, PYTHONHASHSEED=seed)
-        r = subprocess.run([sys.executable, '-c', code], capture_output=True, text=True, env=env, cwd='/')
+    # fixed seeds (so that a dependence on hash randomisation shows on EVERY run, not by chance) + one random
+    seeds = [str(i) for i in range(8)] + ['12345', 'random']
+    procs = [(seed, subprocess.Popen([sys.executable, '-c', code], stdout=subprocess.PIPE, stderr=subprocess.PIPE, text=True,
+                                     env=dict(os.environ, PYTHONHASHSEED=seed), cwd='/')) for seed in seeds]
+    for seed, pr in procs:
+        so, se = pr.communicate()
         ev += 1
         nt += 1
         try:
-            there = json.loads(r.stdout.strip().splitlines()[-1])
+            there = json.loads(so.strip().splitlines()[-1])
         except Exception:
-            raise core.HarnessError(f'child process failed: {r.stderr[-400:]}')
+            raise core.HarnessError(f'child process failed: {se[-400:]}')
         if there != here:
-            ctx.violate(core.make_violation({'check': 'id-differs-across-processes', 'hashseed': seed},
+            ctx.violate(core.make_violation({'check': 'id-differs-across-processes', 'hashseed': 'fixed' if seed != 'random' else 'random'},
                                             f'identifiers differ in a child process with PYTHONHASHSEED={seed}: {there} vs {here}', {'seed': seed}, here, there))
     # ---- sensitivity
     ref_p = mk_point()
